@@ -73,6 +73,10 @@ Step(e) ==
       [] e.ev = "ask" ->
             /\ ("panic" \in DOMAIN e \/ e.res # AskResult(e.l, e.r)) => Mismatch(l, e, [res |-> AskResult(e.l, e.r)])
             /\ AQuery
+      [] e.ev = "rebuild_from_leaves" ->
+            \* the tree is rebuilt from copies of its own single-element reads: the logical array is unchanged
+            /\ ("panic" \in DOMAIN e \/ e.leaves # [i \in 1 .. n |-> arr[i - 1]]) => Mismatch(l, e, [leaves |-> [i \in 1 .. n |-> arr[i - 1]]])
+            /\ AQuery
       [] e.ev = "lb" ->
             /\ JudgeSearch(e, FoldsFrom(e.pos), LAMBDA i : e.pos + i - 1)
             /\ AQuery
